@@ -6,7 +6,7 @@
 //! stub: minicbor::encode::Error::write -> Error::message (kind of a write error only)
 //! assume: value -> bytes -> value decodes from the encoding followed by arbitrary bytes and requires position == encoded length (symbolic slice lengths make every read fallible and cost 7x); bytes -> value -> bytes uses buffers of exactly the laid-out item length
 //! assume: minicbor 0.26.5 primitive codecs (u8..u64, bool, tuples, Vec, tag/array/map heads, skip) are executed as they are, not modelled
-//! outside: KeyValuePairs / NonEmptyKeyValuePairs / OrderPreservingProperties with 2 entries (value round-trip and exactness: no verdict in 1000..1500 s even with bool payloads) and their value round-trip with 1 entry as a single query (no verdict in 700 s; covered through bytes->value->bytes on every minimal-head class + decoder determinism); AnyCbor on arrays / maps / tags / a fully symbolic buffer and AnyCbor::from_encode (Decoder::skip behind symbolic heads: CBMC abort or no verdict in 700..900 s); KeyValuePairs with KeepRaw items; nested MaybeIndefArray (depth 2: no verdict in 700 s)
+//! outside: KeyValuePairs / NonEmptyKeyValuePairs / OrderPreservingProperties with 2 entries (value round-trip and exactness: no verdict in 1000..1500 s even with bool payloads) and their value round-trip with 1 entry as a single query (no verdict in 700 s; covered through bytes->value->bytes on every minimal-head class + decoder determinism); AnyCbor on arrays / maps / tags / a fully symbolic buffer and AnyCbor::from_encode (Decoder::skip behind symbolic heads: CBMC abort or no verdict in 700..900 s); KeyValuePairs with KeepRaw items; nested MaybeIndefArray (depth 2: no verdict in 700 s); indefinite 1-entry maps whose items are immediates (symbolic head bytes next to the break test: no verdict in 1500 s; the 18 xx class is checked)
 //! outside: containers with more than 2 elements, nesting of containers (property: depth 3; here only Nullable<KeepRaw>, MaybeIndefArray<KeepRaw>, CborWrap/TagWrap over integers), payload types other than u8/u32/u64, buffers longer than 10 bytes; SkipCbor (encode is todo!()); serde impls; HashMap conversions (not executable under the model checker)
 //! outside: KeepRaw equality is asserted on (inner value, raw bytes == own encoding), not with the derived PartialEq: KeepRaw::from(v) has an empty raw by design
 use pallas_codec::minicbor::{self, encode::write::Cursor, Decoder, Encoder};
@@ -99,7 +99,7 @@ fn vec_is<A: PartialEq>(v: &Vec<A>, want: &[A]) -> bool {
     true
 }
 
-// bound: KeyValuePairs with 0 entries, Def and Indef (non-empty maps: value round-trip gives no verdict in 700 s even for one entry; it follows from the bytes->value->bytes harnesses below, which cover every 1-entry map over minimal u8 heads, and the determinism of the decoder)
+// bound: KeyValuePairs with 0 entries, Def and Indef (non-empty maps: value round-trip gives no verdict in 700 s even for one entry; it follows from the bytes->value->bytes harnesses below, which cover every definite 1-entry map over minimal u8 heads and the indefinite one over 18 xx heads, and the determinism of the decoder)
 v2b!(c03_t_v2b_kvp_def0, KeyValuePairs<u8, u8>, 3, (), KeyValuePairs::Def(vec![]), |g| kv_is(g, true, &[]), |n| n == 1);
 v2b!(c03_q_v2b_kvp_indef0, KeyValuePairs<u8, u8>, 3, (), KeyValuePairs::Indef(vec![]), |g| kv_is(g, false, &[]), |n| n == 2);
 
@@ -109,7 +109,6 @@ v2b!(c03_q_v2b_mia_indef0, MaybeIndefArray<u8>, 3, (), MaybeIndefArray::Indef(ve
 v2b!(c03_q_v2b_mia_def1_u32, MaybeIndefArray<u32>, 4, (a: u32), MaybeIndefArray::Def(vec![a]), |g| arr_is(g, true, &[a]), |n| n == 6);
 v2b!(c03_t_v2b_mia_indef2_bool, MaybeIndefArray<bool>, 5, (a: bool, b: bool), MaybeIndefArray::Indef(vec![a, b]), |g| arr_is(g, false, &[a, b]), |n| n == 4);
 v2b!(c03_q_v2b_mia_def2_bool, MaybeIndefArray<bool>, 5, (a: bool, b: bool), MaybeIndefArray::Def(vec![a, b]), |g| arr_is(g, true, &[a, b]), |n| n == 3);
-v2b!(c03_t_v2b_mia_indef2_u8, MaybeIndefArray<u8>, 5, (a: u8, b: u8), MaybeIndefArray::Indef(vec![a, b]), |g| arr_is(g, false, &[a, b]), |n| n == 6);
 v2b!(c03_t_v2b_mia_indef1_u64, MaybeIndefArray<u64>, 4, (a: u64), MaybeIndefArray::Indef(vec![a]), |g| arr_is(g, false, &[a]), |n| n == 11);
 
 // bound: Set / NonEmptySet (always written with tag 258) with 0..=2 symbolic elements of bool/u8/u32/u64 (2 integer elements: thorough only)
@@ -344,10 +343,9 @@ b2b!(c03_t_b2b_kvp_def1_imm, KeyValuePairs<u8, u8>, 3, 4, |b| { b[0] = 0xa1; kan
 b2b!(c03_q_b2b_kvp_indef1_h18, KeyValuePairs<u8, u8>, 6, 4, |b| { b[0] = 0xbf; b[1] = 0x18; b[3] = 0x18; b[5] = 0xff; kani::assume(b[2] >= 0x18 && b[4] >= 0x18); });
 b2b!(c03_t_b2b_kvp_def1_imm_h18, KeyValuePairs<u8, u8>, 4, 4, |b| { b[0] = 0xa1; b[2] = 0x18; kani::assume(b[1] <= 0x17 && b[3] >= 0x18); });
 b2b!(c03_t_b2b_kvp_def1_h18_imm, KeyValuePairs<u8, u8>, 4, 4, |b| { b[0] = 0xa1; b[1] = 0x18; kani::assume(b[2] >= 0x18 && b[3] <= 0x17); });
-b2b!(c03_t_b2b_kvp_indef1_imm, KeyValuePairs<u8, u8>, 4, 4, |b| { b[0] = 0xbf; b[3] = 0xff; kani::assume(b[1] <= 0x17 && b[2] <= 0x17); });
-// bound: NonEmptyKeyValuePairs<u8,u8> on a1 k v / bf k v ff with immediate items; OrderPreservingProperties<(u8 key, u32 value)> on a1 k v with immediates and with a 1a value >= 0x10000
+// bound: NonEmptyKeyValuePairs<u8,u8> on a1 k v (immediates) / bf 18 k 18 v ff (k, v >= 0x18); OrderPreservingProperties<(u8 key, u32 value)> on a1 k v with immediates and with a 1a value >= 0x10000
 b2b!(c03_t_b2b_nekvp_def1_imm, NonEmptyKeyValuePairs<u8, u8>, 3, 4, |b| { b[0] = 0xa1; kani::assume(b[1] <= 0x17 && b[2] <= 0x17); });
-b2b!(c03_t_b2b_nekvp_indef1_imm, NonEmptyKeyValuePairs<u8, u8>, 4, 4, |b| { b[0] = 0xbf; b[3] = 0xff; kani::assume(b[1] <= 0x17 && b[2] <= 0x17); });
+b2b!(c03_t_b2b_nekvp_indef1_h18, NonEmptyKeyValuePairs<u8, u8>, 6, 4, |b| { b[0] = 0xbf; b[1] = 0x18; b[3] = 0x18; b[5] = 0xff; kani::assume(b[2] >= 0x18 && b[4] >= 0x18); });
 b2b!(c03_t_b2b_opp1_imm, OrderPreservingProperties<Prop>, 3, 4, |b| { b[0] = 0xa1; kani::assume(b[1] <= 0x17 && b[2] <= 0x17); });
 b2b!(c03_q_b2b_opp1_h1a, OrderPreservingProperties<Prop>, 7, 4, |b| { b[0] = 0xa1; b[1] = 0x05; b[2] = 0x1a; kani::assume(b[3] != 0 || b[4] != 0); });
 // bound: KeyValuePairs<u8,u8> with a non-minimal definite length head (b8 01 k v)
